@@ -279,6 +279,29 @@ class Prop(object):
         self._judge(r, ea + wire.packet(18, ca[:-22] + cb[-22:]), rc, mA, dict(tags, grp='mdc-transplant'), dict(case), 'final 22 octets replaced by those of another message')
         self._judge(r, ea + wire.packet(18, ca[:-22]), rc, mA, dict(tags, grp='mdc-removed'), dict(case), 'final 22 octets removed')
         self._judge(r, ea + wire.packet(18, ca[:-20] + bytes(20)), rc, mA, dict(tags, grp='mdc-zero'), dict(case), 'final 20 octets zeroed')
+        # downgrade to the legacy container: a whole-block suffix of the ciphertext behind two arbitrary octets, re-tagged as packet 9.
+        # The plaintext is built so that a complete literal packet starts at a block boundary: if the prefix quick check of the legacy
+        # container does not stop it, that inner packet comes back as the message.
+        from refpgp import enc as renc, msg as rmsg
+        inner = wire.packet(11, rmsg.literal_body('b', b'', 0, b'INNER PACKET CONTENT'))
+        pad = (-(bs + 2 + 2 + 6)) % bs
+        if pad < 0:
+            pad += bs
+        outer_body = b'P' * pad + inner
+        mD, blobD = self._base(case['cipher'], rc, outer_body, sessionkey=sk)
+        pd = self._split(blobD)
+        cd = pd[-1]['body'][1:]
+        start = bs + 2 + 2 + 6 + pad           # offset of the inner packet in the encrypted stream (prefix, literal header, padding)
+        if len(outer_body) + 6 < 192 and start % bs == 0:
+            jblk = start // bs
+            cid = R.CIPHER_ID[case['cipher']]
+            for xx in (b'\x00\x00', b'\xa5\x5a', b'\xff\x01'):
+                ct9 = xx + cd[(jblk - 1) * bs:]
+                pre = renc.cfb_decrypt(cid, sk, ct9[:bs + 2])
+                if pre[bs - 2:bs] == pre[bs:bs + 2]:
+                    continue        # (1 in 65536: these two octets happen to pass the legacy quick check - not a usable test vector)
+                self._judge(r, pd[0]['raw'] + wire.packet(9, ct9), rc, mD, dict(tags, grp='tag9-downgrade'), dict(case),
+                            'integrity-protected message re-framed as a legacy tag 9 packet from block %d on (leading octets %s)' % (jblk, xx.hex()))
         # B's data under A's session-key packet is simply message B
         # packet-level: permutations, deletions, duplications of [ESK, data] and of [ESK1, ESK2, data]
         second = 'cv25519-other' if rc != 'pass' else 'rsa2048-other'
